@@ -2,6 +2,7 @@
 import os
 
 import verif as V
+import dhcp6int
 import locks
 
 PROP = "C02"
@@ -17,6 +18,10 @@ COMPS = [
     V.Component("dhcp4", monitors=MON, kind="gotest", drv_bin=DRV_BIN),
     V.Component("dhcp6", monitors=MON, kind="gotest", drv_bin=DRV_BIN),
 ]
+# the DHCPv6 server in integrated-allocator mode (lib/dhcp6int.py)
+COMPS += dhcp6int.comps(["double-binding", "foreign-ack", "range"])
+SPEC = SPEC + dhcp6int.SPEC
+
 LEVEL = ("The binding invariants (Bind4: pool never double-books, every lease is backed by the pool binding of its MAC or is "
          "that MAC's Nexus allocation, only usable undeclined host addresses are served; Bind6: the same for DHCPv6 "
          "addresses and delegated prefixes) and their consequences (ack_not_foreign, one_binding_per_addr, "
@@ -36,7 +41,11 @@ LEVEL = ("The binding invariants (Bind4: pool never double-books, every lease is
          "sequences) is NOT enumerated. Enumerated exhaustively (thorough tier; quick = seeded sample) are smaller "
          "scopes: v4 2 clients depth 5/6 (13/8 letters, one-address pool), 3 clients depth 4 (21 letters), 4 clients "
          "depth 3 (43 letters, requested address in {own, other's, gateway, broadcast, network, outside, none}), a "
-         "lock-gap scope (lease 290 s, 2 clients depth 4) and a Nexus-mode scope (3 clients depth 3); v6 2 clients "
+         "lock-gap scope (lease 290 s, 2 clients depth 4), a Nexus-mode scope (3 clients depth 3) and a scope inside the "
+         "expired-but-unswept window (client 1's lease over, sweep not yet run; 3 clients, 2 addresses, depth 4, 12 letters: "
+         "DISCOVER with/without option 50, REQUEST by the lessee and by the others, RELEASE, the sweep); a directed random "
+         "family walks the same window (A leases X; lease over; A DISCOVERs naming Y; B REQUESTs X; sweep; C REQUESTs X, every "
+         "role and step randomised); one random DISCOVER in three carries option 50 (op `discr`); v6 2 clients "
          "depth 5 and 3 clients depth 4; plus seeded random runs to depth 200 with 6 (v4) / 9 (v6) clients.")
 ASSUME = [
     "each handler call is one atomic step (the harness delivers one packet at a time); cleanupExpiredLeases is split at "
@@ -59,6 +68,9 @@ ASSUME = [
 ]
 ASSUME = ASSUME + [locks.ASSUME]
 
+
+ASSUME = ASSUME + dhcp6int.ASSUME
+LEVEL = LEVEL + " " + dhcp6int.LEVEL
 
 def run(tier, seed):
     return V.standard_check(PROP, SPEC, COMPS, LEVEL, ASSUME, tier, seed, pre=locks.with_locks())
